@@ -16,6 +16,19 @@ def showSig (r : String ⊕ Except RErr (SigInfo × Bytes)) : String :=
   | .inr (.ok (g, _)) =>
     s!"ok st={g.sigType} pk={g.pkAlgo} h={g.hashId} ct={(g.ctime.getD 0)} iss={showOpt toString g.issuer} sl={showOpt toString g.sigLife} kl={showOpt toString g.keyLife} ps={showOpt toHex g.prefSym} ph={showOpt toHex g.prefHash} pc={showOpt toHex g.prefComp} prim={showOpt toString g.primary} fl={showOpt toString g.flags} rr={showOpt (fun (p : UInt8 × Bytes) => s!"{p.1}:{toHex p.2}") g.revReason} mdc={g.mdc} emb={if g.hasEmbedded then toString g.embeddedType else "none"} nraw={g.nraw} tag={toHex g.hashTag} mpi={",".intercalate (g.mpiBits.map toString)}"
 
+/-- the packets `OpaqueReader.Next` returned WITHOUT an error (those are the ones the harness re-serialises);
+    `opaqueAll` also lists a packet handed back together with a body error, and a header error adds none —
+    both end in `ueof`, so the distinction is recomputed here (fuel = input length, driver only) -/
+def opaqueOk : Nat → Bytes → List OPkt
+  | 0, _ => []
+  | fuel + 1, s =>
+    match readHeader s with
+    | .error _ => []
+    | .ok hd =>
+      match readBody hd.body hd.rest with
+      | (_, some _, _) => []
+      | (c, none, rest) => ⟨hd.tag, c⟩ :: opaqueOk fuel rest
+
 def handle (line : String) : String :=
   let o := parseOp line
   match o.cmd with
@@ -71,8 +84,7 @@ def handle (line : String) : String :=
     match o.hex? "data" with
     | none => "bad-op"
     | some d =>
-      let r := opaqueAll d
-      let ok := if r.2 == .eof || r.2 == .struct then r.1 else r.1.dropLast    -- the packet returned together with an error is not serialised
+      let ok := opaqueOk (d.length + 1) d
       "ser=" ++ toHex ((ok.map (fun p => C44.serializeHeader p.tag p.contents.length ++ p.contents)).flatten)
   | "osubser" =>
     match o.hex? "data" with
